@@ -177,12 +177,22 @@ impl Reporter {
             "replays": replay_paths,
             "machinery_errors": self.machinery_errors,
         });
-        let dir = format!("{}/evidence", crate::VERIF_ROOT);
+        // trials of seeded changes (VERIF_TARGET set) must not overwrite the evidence of the real tree
+        let dir = match std::env::var("VERIF_TARGET") {
+            Ok(t) if !t.is_empty() => format!("{t}/evidence"),
+            _ => format!("{}/evidence", crate::VERIF_ROOT),
+        };
         let _ = std::fs::create_dir_all(&dir);
         let path = format!("{}/{}.json", dir, self.property);
         let tmp = format!("{}.tmp", path);
         std::fs::write(&tmp, serde_json::to_string_pretty(&ev).unwrap()).expect("write evidence");
         std::fs::rename(&tmp, &path).expect("rename evidence");
+        if self.tier.is_thorough() {
+            // evidence/<id>.json is rewritten by whichever tier ran last; keep the thorough record next to it
+            let tdir = format!("{}/thorough", dir);
+            let _ = std::fs::create_dir_all(&tdir);
+            let _ = std::fs::copy(&path, format!("{}/{}.json", tdir, self.property));
+        }
         if !self.machinery_errors.is_empty() {
             emit(&format!("MACHINERY-ERROR: {} machinery error(s); this run is not a verdict: {}", self.machinery_errors.len(), self.machinery_errors.first().cloned().unwrap_or_default()));
             return 2;
